@@ -17,6 +17,7 @@ import GoldilocksVerif.Props.C17Gen
 import GoldilocksVerif.Lemmas.ParCopyL
 import GoldilocksVerif.Props.C02
 import GoldilocksVerif.Props.C11
+import GoldilocksVerif.Lemmas.BridgeParcpy
 
 namespace GoldilocksVerif.C17
 open GoldilocksVerif
@@ -169,5 +170,33 @@ theorem C17_parSetZero_seq (dst : Region) (size : Nat) (nt : Int) (j : Nat) :
 -- premises are satisfiable / definitions are not degenerate
 example : ParCopy.starts 10 3 = [0, 4, 8] ∧ ParCopy.starts 10 (-5) = [0] ∧ ParCopy.starts 0 4 = [] ∧
     ParCopy.len 10 3 8 = 2 := by decide
+
+/-! ### (3') the TRANSLATED `Goldilocks::parcpy` (Gen/NttGen.lean, heap mode of the translator: pointers are block + offset)
+  `parcpy` is translated from the C++ text on every run because `NTT_iters` calls it (size 1).  Heap view: `hp` is the list of
+  memory blocks, `⟨D, od⟩` / `⟨S, os⟩` the destination / source pointers (block number, word offset), `bv n = BitVec.ofNat 64 n`. -/
+section generated
+open GoldilocksVerif.BridgeNtt Gen.NttGen
+
+/-- **generated `parcpy`**: for every size `n` (0 included; `8·n < 2^64`), every `int` thread count `nt` (zero and negative
+    included) and every fuel above the number of chunks (`parFuel n nt = min(n, max(1, nt)) + 1`), the translated function returns;
+    the heap differs from the one before in the destination block only; that block keeps its size, the words `od … od+n-1` that
+    lie inside it hold the source words `os … os+n-1`, every other word is unchanged: exactly `n` words are transferred.  When the
+    destination range lies inside the block, the region the destination pointer designates is `ParCopy.parcpy` of the two regions
+    (the hand model of (3)). -/
+theorem C17_generated_parcpy (fuel : Nat) (hp : Heap) (D S od os n : Nat) (nt : Int) (hD : D < hp.size) (hDS : D ≠ S)
+    (hn8 : n * 8 < 2 ^ 64) (hnt : nt < 2 ^ 63) (hf : parFuel n nt ≤ fuel) :
+    ∃ B', parcpy fuel hp ⟨D, od⟩ ⟨S, os⟩ (bv n) nt = some (hp.setBlock D B') ∧ B'.size = (hp.block D).size ∧
+      (∀ j, B'.getD j 0#64 = if od ≤ j ∧ j < od + n ∧ j < (hp.block D).size then (hp.block S).getD (os + (j - od)) 0#64
+        else (hp.block D).getD j 0#64) ∧
+      (od + n ≤ (hp.block D).size → ∀ j, B'.getD (od + j) 0#64 =
+        (ParCopy.parcpy ⟨fun j => (hp.block D).getD (od + j) 0#64⟩ ⟨fun j => (hp.block S).getD (os + j) 0#64⟩ n nt) j) :=
+  ⟨_, parcpy_gen fuel hp D S od os n nt hD hDS hn8 hnt hf, Model.Ntt.copyRow_size _ _ _ _ _,
+    fun j => Model.Ntt.copyRow_getD _ _ _ _ _ j, fun hfit j => parcpy_gen_region hp D S od os n nt hfit j⟩
+
+/-- the fuel bound, spelled out -/
+theorem C17_generated_parcpy_fuel (n : Nat) (nt : Int) :
+    parFuel n nt = min n (if nt < 1 then 1 else nt.toNat) + 1 := rfl
+
+end generated
 
 end GoldilocksVerif.C17
